@@ -1,11 +1,340 @@
-/- Driver for C15 (stub — not built yet) -/
+/-
+Driver for C15: replays an implementation transcript (allocator event stream + queue answers +
+destructor log) through
+  (i)  the Lean allocator model `Alloc` / the queue-with-memory model `CQMem`, with the pages in
+       the observed order — it must predict every address (`kind=diverge` otherwise), and
+  (ii) the acceptance checkers: the shadow map `AllocSafe.accept` for the memory clauses, the
+       abstract event set `FES` for the payload clauses (`kind=reject` on violation).
+-/
+import Desverif.Model.CQMem
+import Desverif.Spec.AllocSafe
 import Driver.Common
 namespace Driver.C15
 open Driver
+open AllocSafe (Ev Shadow)
+
+/-- `<k>+<off>` or `?` -/
+def parseLoc (s : String) : Option (Option (Nat × Nat)) :=
+  if s = "?" then some none
+  else match s.splitOn "+" with
+    | [k, off] => match k.toNat?, off.toNat? with
+      | some k, some off => some (some (k, off))
+      | _, _ => none
+    | _ => none
+
+def parseEv (tok : String) : Option Ev :=
+  let parts := tok.splitOn ":"
+  match parts with
+  | hd :: rest =>
+    let tag := hd.take 1 |>.toString
+    let body := hd.drop 1 |>.toString
+    match tag, rest.map String.toNat? with
+    | "P", [some len, some al, some dj] => body.toNat?.map fun k => Ev.page k len (al != 0) (dj != 0)
+    | "A", [some sz, some al, some ok] => (parseLoc body).map fun loc => Ev.alloc loc sz al (ok != 0)
+    | "E", [some sz, some al] => some (Ev.fail sz al)
+    | "F", [some sz, some al] => (parseLoc body).map fun loc => Ev.free loc sz al
+    | _, _ => none
+  | [] => none
+
+def parseEvs (s : String) : Option (List Ev) :=
+  if s = "-" then some [] else (s.splitOn ",").mapM parseEv
+
+def showLoc : Option (Nat × Nat) → String
+  | none => "?"
+  | some (k, off) => s!"{k}+{off}"
+
+def showEv : Ev → String
+  | .page k len al dj => s!"P{k}:{len}:{if al then 1 else 0}:{if dj then 1 else 0}"
+  | .alloc loc sz al ok => s!"A{showLoc loc}:{sz}:{al}:{if ok then 1 else 0}"
+  | .fail sz al => s!"E:{sz}:{al}"
+  | .free loc sz al => s!"F{showLoc loc}:{sz}:{al}"
+
+def showEvs (l : List Ev) : String := if l.isEmpty then "-" else ",".intercalate (l.map showEv)
+
+/-- the page oracle the model is run with: page k at `(k+1) * P` (page-aligned, pairwise disjoint).
+    Placement inside a page does not depend on the page's address as long as alignments divide the
+    page size, which the harness guarantees. -/
+def orcOf (P : Nat) : Nat → Nat := fun k => (k + 1) * P
+
+def locOf (P addr : Nat) : Option (Nat × Nat) := if P = 0 || addr < P then none else some (addr / P - 1, addr % P)
+
+def ofMEv (P : Nat) : Alloc.MEv → Ev
+  | .page addr len => .page (addr / P - 1) len (addr % P == 0) true
+  | .alloc addr sz al => .alloc (locOf P addr) sz al (al != 0 && addr % al == 0)
+  | .fail sz al => .fail sz al
+  | .free addr sz al => .free (locOf P addr) sz al
+
+def log2? (n : Nat) : Option Nat := (List.range 40).find? fun k => 2 ^ k == n
+
+def parseDrops (s : String) : Option (List Nat) :=
+  if s = "-" then some [] else (s.splitOn ",").mapM String.toNat?
+
+def showNats (l : List Nat) : String := if l.isEmpty then "-" else ",".intercalate (l.map toString)
+
+def sortNats (l : List Nat) : List Nat := (l.toArray.qsort (· < ·)).toList
+
+structure Stats where
+  ops : Nat := 0
+  cancels : Nat := 0
+  pendingAtDrop : Nat := 0
+
+def verdictOk (id kind : String) (sh : Shadow) (st : Stats) : String :=
+  let nt := sh.reused > 0 && (sh.pages ≥ 2 || st.pendingAtDrop > 0)
+  s!"ok {id} nt={if nt then 1 else 0} ops={st.ops} allocs={sh.allocs} frees={sh.frees} reused={sh.reused} pages={sh.pages} multipage={if sh.pages ≥ 2 then 1 else 0} cancels={st.cancels} pending_at_drop={st.pendingAtDrop} {kind}=1"
+
+/-- judge one line's allocator events: shadow first (reject), then model (diverge) -/
+def judgeEvs (sh : Shadow) (impl model : List Ev) : Except String Shadow :=
+  match AllocSafe.acceptAll sh impl with
+  | .error c => .error s!"kind=reject clause={c} spec=rejects model={showEvs model} impl={showEvs impl}"
+  | .ok sh' =>
+    if impl != model then .error s!"kind=diverge clause=placement spec=accepts model={showEvs model} impl={showEvs impl}"
+    else .ok sh'
+
+/-! ### raw allocator cases -/
+
+def runRaw (id : String) (h : List String) (body : List String) : String := Id.run do
+  let P := (kvNat h "page").getD 0
+  let orc := orcOf P
+  let mut sh : Shadow := { pageSize := P }
+  let mut st : Stats := {}
+  let mut rs : Alloc.RState := { st := { free := [], pages := [], pageSize := P, allocated := 0 }, live := [], next := 0 }
+  let mut keys : List (Nat × Nat) := []
+  let mut i := 0
+  for line in body do
+    if line.startsWith "end" then continue
+    i := i + 1
+    let (lhs, rhs) := splitArrow line
+    let l := words lhs
+    let r := words rhs
+    let ans := r.head?.getD ""
+    let fail (msg : String) : String := s!"fail {id} op={i} line=[{lhs}] {msg}"
+    match l with
+    | ["new"] =>
+      if ans = "refused" then return s!"ok {id} nt=0 refused=1"
+      match Alloc.start orc P, (kv r "ev").bind parseEvs with
+      | some rs0, some impl =>
+        rs := rs0
+        let model := (Alloc.newPages { rs0.st with pages := [] } rs0.st).map (ofMEv P)
+        match judgeEvs sh impl model with
+        | .error m => return fail m
+        | .ok sh' => sh := sh'
+      | _, _ => return fail "kind=badline"
+    | ["alloc", tag, size, alog] =>
+      match tag.toNat?, size.toNat?, alog.toNat? with
+      | some tag, some size, some alog =>
+        let (rs', o, mev) := Alloc.stepEv orc rs (.alloc size alog)
+        if ans = "refused" then
+          -- the harness does not issue requests for which find_region cannot return
+          if o == .diverged || 2 ^ alog > P then continue
+          else return fail "kind=badcase detail=refused-but-model-terminates"
+        match (kv r "ev").bind parseEvs with
+        | none => return fail "kind=badline"
+        | some impl =>
+          if ans = "runaway" then
+            -- the observer's page limit cut off a find_region that kept adding pages
+            if o == .diverged then
+              st := { st with ops := st.ops + 1 }
+              return (verdictOk id "raw" sh st) ++ " runaway=1"
+            else return fail s!"kind=reject clause=nontermination spec=request-in-range model=terminates impl={showEvs impl}"
+          if ans = "panic" then return fail s!"kind=reject clause=panic impl={showEvs impl}"
+          let model := mev.map (ofMEv P)
+          match judgeEvs sh impl model with
+          | .error m => return fail m
+          | .ok sh' => sh := sh'
+          let mans := match o with | .allocated _ => "ok" | .failed => "err" | .diverged => "diverged" | _ => "internal"
+          if ans != mans then return fail s!"kind=diverge clause=answer model={mans} impl={ans}"
+          match o with
+          | .allocated _ => keys := (tag, rs.next) :: keys
+          | _ => pure ()
+          rs := rs'
+          st := { st with ops := st.ops + 1 }
+      | _, _, _ => return fail "kind=badline"
+    | ["free", tag] =>
+      match tag.toNat?.bind (keys.lookup ·), (kv r "ev").bind parseEvs with
+      | some key, some impl =>
+        if ans = "panic" then return fail s!"kind=reject clause=panic impl={showEvs impl}"
+        if kvNat r "intact" != some 1 then return fail "kind=reject clause=live-block-overwritten"
+        let (rs', o, mev) := Alloc.stepEv orc rs (.free key)
+        match judgeEvs sh impl (mev.map (ofMEv P)) with
+        | .error m => return fail m
+        | .ok sh' => sh := sh'
+        if o != .freed then return fail s!"kind=diverge clause=answer model-refuses-free"
+        rs := rs'
+        st := { st with ops := st.ops + 1 }
+      | _, _ => return fail "kind=badline"
+    | ["abort"] => return fail "kind=reject clause=harness-guard detail=the-harness-saw-a-memory-safety-violation-the-checker-accepted"
+    | ["drop"] =>
+      if ans = "panic" then return fail "kind=reject clause=panic"
+      if kvNat r "intact" != some 1 then return fail "kind=reject clause=live-block-overwritten"
+      match kvNat r "mem", kvNat r "npages" with
+      | some mem, some np =>
+        if mem != AllocSafe.liveBytes sh then
+          return fail s!"kind=reject clause=accounting spec={AllocSafe.liveBytes sh} model={rs.st.allocated} impl={mem}"
+        if np != sh.pages then return fail s!"kind=reject clause=page-count spec={sh.pages} impl={np}"
+        if mem != rs.st.allocated || np != rs.st.pages.length then
+          return fail s!"kind=diverge clause=accounting model={rs.st.allocated}/{rs.st.pages.length} impl={mem}/{np}"
+      | _, _ => return fail "kind=badline"
+    | _ => return fail "kind=badline"
+  return verdictOk id "raw" sh st
+
+/-! ### calendar-queue cases -/
+
+structure Obs where
+  ans : String
+  len : Nat
+  time : Nat
+  empty : Bool
+deriving DecidableEq
+
+def showObs (o : Obs) : String := s!"{o.ans},len={o.len},time={o.time},empty={if o.empty then 1 else 0}"
+
+def showCq (bits : Nat) : CQRun.Out → String
+  | .added => "ok" | .rejected => "panic" | .cancelDone => "ok" | .badHandle => "bad-handle"
+  | .fetched v t => s!"{v % 2 ^ bits}@{t}" | .empty => "panic" | .internal => "internal"
+
+def showOut (bits : Nat) : CQMem.Out → String
+  | .cq o => showCq bits o
+  | .created => "ok" | .createFailed => "panic" | .dropped => "ok" | .diverged => "diverged"
+  | .internal => "internal"
+
+def runCq (id : String) (h : List String) (body : List String) : String := Id.run do
+  let n := (kvNat h "n").getD 0
+  let t := (kvNat h "t").getD 0
+  let bits := (kvNat h "bits").getD 64
+  let dc := (kvNat h "dc").getD 0 != 0
+  if n = 0 || t = 0 then return s!"fail {id} op=0 kind=badcase detail=n-or-t-zero"
+  let tr (l : List Nat) : List Nat := l.map (· % 2 ^ bits)
+  let mut P := 0
+  let mut sh : Shadow := { pageSize := 0 }
+  let mut st : Stats := {}
+  let mut ms : Option CQMem.State := none
+  let mut ss : FES.State × CQRun.Handles := (FES.init, [])
+  let mut i := 0
+  for line in body do
+    if line.startsWith "end" then continue
+    i := i + 1
+    let (lhs, rhs) := splitArrow line
+    let l := words lhs
+    let r := words rhs
+    let ans := r.head?.getD ""
+    let fail (msg : String) : String := s!"fail {id} op={i} line=[{lhs}] {msg}"
+    if l == ["new"] then
+      match kvNat r "nsize", (kvNat r "nalign").bind log2?, kvNat r "psz" with
+      | some nsize, some nlog, some psz =>
+        P := psz
+        sh := { pageSize := P }
+        let (m, o, mev) := CQMem.create (orcOf P) n t P nsize nlog
+        if ans = "refused" then
+          if o == .diverged then return s!"ok {id} nt=0 refused=1"
+          else return fail "kind=badcase detail=refused-but-model-terminates"
+        match (kv r "ev").bind parseEvs with
+        | none => return fail "kind=badline"
+        | some impl =>
+          if ans = "runaway" then
+            if o == .diverged then return s!"ok {id} nt=0 runaway=1"
+            else return fail s!"kind=reject clause=nontermination spec=node-in-range model=terminates impl={showEvs impl}"
+          match judgeEvs sh impl (mev.map (ofMEv P)) with
+          | .error m => return fail m
+          | .ok sh' => sh := sh'
+          if ans != showOut bits o then return fail s!"kind=diverge clause=answer model={showOut bits o} impl={ans}"
+          if ans = "panic" then return s!"ok {id} nt=0 node_exceeds_page=1"
+          ms := m
+      | _, _, _ => return fail "kind=badline"
+      continue
+    if l == ["abort"] then
+      return fail "kind=reject clause=harness-guard detail=the-harness-saw-a-memory-safety-violation-the-checker-accepted"
+    match ms with
+    | none => return fail "kind=badline detail=no-queue"
+    | some m =>
+      let orc := orcOf P
+      match (kv r "ev").bind parseEvs, (kv r "d").bind parseDrops with
+      | some impl, some idrops =>
+        if l == ["drop"] then
+          if ans = "panic" then return fail s!"kind=reject clause=panic impl={showEvs impl}"
+          -- bookkeeping before the drop
+          match kvNat r "mem", kvNat r "npages" with
+          | some mem, some np =>
+            if mem != AllocSafe.liveBytes sh then
+              return fail s!"kind=reject clause=accounting spec={AllocSafe.liveBytes sh} model={m.a.st.allocated} impl={mem}"
+            if np != sh.pages then return fail s!"kind=reject clause=page-count spec={sh.pages} impl={np}"
+            if mem != m.a.st.allocated then return fail s!"kind=diverge clause=accounting model={m.a.st.allocated} impl={mem}"
+          | _, _ => return fail "kind=badline"
+          let res := CQMem.drop orc m
+          let pend := (ss.1.zero ++ ss.1.pend).map (·.val)
+          st := { st with pendingAtDrop := pend.length }
+          if dc then
+            if (kv r "bad").getD "?" != "-" then
+              return fail s!"kind=reject clause=drop-count created:dropped={(kv r "bad").getD "?"}"
+            if sortNats idrops != sortNats (tr pend) then
+              return fail s!"kind=reject clause=pending-not-dropped-once spec={showNats (sortNats (tr pend))} impl={showNats (sortNats idrops)}"
+          match judgeEvs sh impl (res.evs.map (ofMEv P)) with
+          | .error e => return fail e
+          | .ok sh' => sh := sh'
+          if !sh.live.isEmpty then return fail s!"kind=reject clause=nodes-not-released live={sh.live.length}"
+          if dc && idrops != tr res.drops then
+            return fail s!"kind=diverge clause=drop-order model={showNats (tr res.drops)} impl={showNats idrops}"
+          if res.out != .dropped then return fail "kind=diverge clause=answer model=internal"
+          ms := some res.st
+          continue
+        match kvNat r "len", kvNat r "time", kvNat r "empty" with
+        | some len, some time, some empty =>
+          let obs : Obs := ⟨ans, len, time, empty != 0⟩
+          -- the operation
+          let op? : Option CQRun.Op := match l with
+            | ["add", tm, v] => match tm.toNat?, v.toNat? with
+              | some tm, some v => some (.add tm v)
+              | _, _ => none
+            | ["cancel", k] => k.toNat?.map .cancel
+            | ["fetch"] => some .fetch
+            | _ => none
+          match op? with
+          | none => return fail "kind=badline"
+          | some op =>
+            st := { st with ops := st.ops + 1 }
+            -- abstract spec
+            let (ss', so) := CQRun.sstep ss op
+            let sobs : Obs := ⟨showCq bits so, FES.len ss'.1, ss'.1.cur, FES.len ss'.1 == 0⟩
+            let sdrops : List Nat := match op, so with
+              | .add _ v, .rejected => [v]
+              | .cancel _, _ =>
+                ((ss.1.zero ++ ss.1.pend).filter fun e => !((ss'.1.zero ++ ss'.1.pend).any (·.id == e.id))).map (·.val)
+              | _, _ => []
+            if let .cancel _ := op then
+              if !sdrops.isEmpty then st := { st with cancels := st.cancels + 1 }
+            -- model
+            let res := CQMem.step orc m op
+            let mobs : Obs := ⟨showOut bits res.out, res.st.q.1.len, res.st.q.1.tcur, res.st.q.1.len == 0⟩
+            -- judge: spec first
+            if obs != sobs then
+              return fail s!"kind=reject clause=queue-answer spec={showObs sobs} model={showObs mobs} impl={showObs obs}"
+            if l == ["fetch"] && ans != "panic" && kvNat r "intact" != some 1 then
+              return fail "kind=reject clause=payload-damaged"
+            if dc && sortNats idrops != sortNats (tr sdrops) then
+              return fail s!"kind=reject clause=payload-drops spec={showNats (tr sdrops)} model={showNats (tr res.drops)} impl={showNats idrops}"
+            match judgeEvs sh impl (res.evs.map (ofMEv P)) with
+            | .error e => return fail e
+            | .ok sh' => sh := sh'
+            if obs != mobs then
+              return fail s!"kind=diverge clause=queue-answer spec={showObs sobs} model={showObs mobs} impl={showObs obs}"
+            if dc && idrops != tr res.drops then
+              return fail s!"kind=diverge clause=drop-order model={showNats (tr res.drops)} impl={showNats idrops}"
+            ms := some res.st
+            ss := ss'
+        | _, _, _ => return fail "kind=badline"
+      | _, _ => return fail "kind=badline"
+  return verdictOk id "cq" sh st
+
+def runCase (c : Case) : String :=
+  let h := words c.header
+  let id := (h[1]?).getD "?"
+  match kv h "kind" with
+  | some "raw" => runRaw id h c.body
+  | some "cq" => runCq id h c.body
+  | _ => s!"fail {id} op=0 kind=badcase detail=unknown-kind"
 
 def main (stdin : IO.FS.Stream) : IO Unit := do
   let cases ← readCases stdin
   for c in cases do
-    IO.println s!"fail {(words c.header)[1]?.getD "?"} op=0 kind=unimplemented"
+    IO.println (runCase c)
 
 end Driver.C15
